@@ -625,7 +625,11 @@ func (c *Client) negotiateVersion(ctx context.Context) error {
 	if err := bi.Err(); err != nil {
 		return err
 	}
-	serverVersions := bi.ResponsePayload.(*payloads.DiscoverVersionsResponsePayload).ProtocolVersion
+	discovered, ok := bi.ResponsePayload.(*payloads.DiscoverVersionsResponsePayload)
+	if !ok || discovered == nil {
+		return fmt.Errorf("Protocol version negotiation failed. Unexpected response payload %T", bi.ResponsePayload)
+	}
+	serverVersions := discovered.ProtocolVersion
 	if len(serverVersions) == 0 {
 		return errors.New("Protocol version negotiation failed. No common version found")
 	}
@@ -652,6 +656,9 @@ func (c *Client) Request(ctx context.Context, payload kmip.OperationPayload) (km
 	bi := resp[0]
 	if err := bi.Err(); err != nil {
 		return nil, err
+	}
+	if bi.ResponsePayload == nil || bi.ResponsePayload.Operation() != payload.Operation() {
+		return nil, fmt.Errorf("Unexpected response payload %T for operation %q", bi.ResponsePayload, ttlv.EnumStr(payload.Operation()))
 	}
 	return bi.ResponsePayload, nil
 }
@@ -748,7 +755,12 @@ func (ex Executor[Req, Resp]) ExecContext(ctx context.Context) (Resp, error) {
 		var zero Resp
 		return zero, err
 	}
-	return resp.(Resp), nil
+	typed, ok := resp.(Resp)
+	if !ok {
+		var zero Resp
+		return zero, fmt.Errorf("Unexpected response payload type %T", resp)
+	}
+	return typed, nil
 }
 
 // MustExec is like Exec except it panics if the request fails.
